@@ -31,6 +31,25 @@ TRUSTED_BASE = ["Lean 4.33.0 kernel", "tie/extract.py gen_conc (nm on libjwt.a, 
 replay = F.replay
 
 
+class _R:
+    pass
+
+
+def run_bounded(argv, env, limit):
+    """a run that does not come back (a corrupted list walked for ever, a deadlock) is a result, not a harness failure"""
+    p = subprocess.Popen(argv, stdout=subprocess.PIPE, stderr=subprocess.PIPE, text=True, env=env)
+    r = _R()
+    try:
+        r.stdout, r.stderr = p.communicate(timeout=limit)
+        r.returncode = p.returncode
+    except subprocess.TimeoutExpired:
+        p.kill()
+        r.stdout, r.stderr = p.communicate()
+        r.returncode = -9
+        r.stderr = "the run did not finish within %d s (hang: endless walk of a corrupted list, or deadlock) and was killed\n" % limit + r.stderr
+    return r
+
+
 def run(ctx, model_ok, deep=False):
     tier = "thorough" if (ctx.tier == "thorough" or deep) else "quick"
     t0 = time.time()
@@ -56,8 +75,8 @@ def run(ctx, model_ok, deep=False):
     for kind, param, alg in specs:
         key = cache.get((kind, param)) or K.gen_key(kind, param, ctx.scratch)
         cache[(kind, param)] = key
-        items.append(key.jwk(private=True, alg=alg))
-        items.append(key.jwk(private=(kind == "oct"), alg=alg))
+        items.append(key.jwk(private=True, alg=alg, extra={"kid": "priv-%d" % (len(items) // 2)}))
+        items.append(key.jwk(private=(kind == "oct"), alg=alg, extra={"kid": "pub-%d" % (len(items) // 2)}))
     jf = os.path.join(ctx.scratch, "threads.jwks")
     json.dump({"keys": items}, open(jf, "w"))
     # (threads, rounds per cold start, cold starts): every cold start hands the threads a keyring nobody has used yet
@@ -67,7 +86,9 @@ def run(ctx, model_ok, deep=False):
     for prov in ("openssl", "gnutls"):
         for n, rounds, cold in runs:
             for rep in range(1 if tier == "quick" else 2):
-                r = subprocess.run([exe, jf, str(n), str(rounds), prov, str(ctx.seed + rep), str(cold)], capture_output=True, text=True, env=env, timeout=3000)
+                if len([v for v in ctx.violations if not v["no_input"]]) >= 4:
+                    continue        # enough concrete failures to report; do not sit through more hangs
+                r = run_bounded([exe, jf, str(n), str(rounds), prov, str(ctx.seed + rep), str(cold)], env, 60 if ctx.tier == "quick" else 1500)
                 ev += 1
                 outs.add((prov, n, r.returncode))
                 line = r.stdout.strip().splitlines()[-1] if r.stdout.strip() else ""
@@ -94,5 +115,5 @@ def run(ctx, model_ok, deep=False):
                     ctx.notes.append("%d ThreadSanitizer report(s) without any libjwt frame under %s/%d threads (library internals): %s" % (
                         len(reports), prov, n, reports[0].splitlines()[0][:100]))
     ctx.add_suite("threads", evaluations=ev, distinct_nontrivial=len(outs) + 1,
-                  rule="TSan build; N threads x cold starts (fresh, never used keyring each) x rounds x 9 (key, alg) pairs x {generate, verify own, verify sequential, verify corrupted}; both providers; start skew from rand_r; distinct = (provider, N, exit status)",
+                  rule="TSan build; N threads x cold starts (fresh, never used keyring each) x rounds x 9 (key, alg) pairs x {generate, verify own, verify sequential, verify corrupted}, every second verification through a callback that looks the key up by kid in the shared keyring; both providers; start skew from rand_r; distinct = (provider, N, exit status)",
                   exhaustive=False, samples=samples)
